@@ -6,7 +6,7 @@ SPEC = dict(
     level="proof",
     design_ref="DESIGN.md §5 C01",
     technique="Lean 4: lawfulness of every lattice type constructor (composable, so all nestings) + differential correspondence with the real crate",
-    level_text=("Theorems: for every type of the universe LTy (Max/Min over u8..u64 and bool, unit, Conflict, SetUnion, MapUnion, "
+    level_text=("Theorems: for every type of the universe LTy (Max/Min over u8..u64, i8..i64 and bool, unit, Conflict, SetUnion, MapUnion, "
                 "WithBot, WithTop, Pair and a three-field #[derive(Lattice)] struct (proved to compute the functions of nested Pairs), "
                 "DomPair over a total key, VecUnion, at every nesting depth) merge is closed on "
                 "well-formed values, commutative, associative, idempotent and a congruence up to the semantic equality, and "
@@ -30,5 +30,5 @@ SPEC = dict(
     trusted_base=["std HashSet/BTreeSet/HashMap/BTreeMap extend/insert/get modelled as list operations; outputs sorted before comparison",
                   "cc_traits blanket impls (Len/Get/Iter) for the std containers, exercised by correspondence only"],
     assumptions=["set/map backings hold no duplicate keys (precondition stated in collections.rs for the list-backed ones)",
-                 "element/key types are u32; numeric Max/Min over unsigned integers and bool"],
+                 "element/key types are u32; numeric Max/Min over unsigned and signed integers and bool (char, () and 128-bit instantiations of the same macro are not instantiated)"],
 )
